@@ -272,6 +272,30 @@ def dyadic(rng, lo, hi, bits=6):
     return fractions.Fraction(rng.randint(int(lo * scale), int(hi * scale)), scale)
 
 
+
+# ------------------------------------------------------------------------------------------------ time limits
+
+class CaseTimeout(BaseException):
+    """raised by `time_limit` inside the code under test; derives from BaseException so that neither the code
+    under test nor a harness wrapper swallows it with `except Exception`"""
+
+
+@contextlib.contextmanager
+def time_limit(seconds):
+    """Bound one case (one call into the real code).  The timer re-fires every second after the limit, so a
+    handler that is swallowed once (an `except BaseException`/`finally` that keeps looping) is raised again."""
+    import signal
+
+    def _raise(*_args):
+        raise CaseTimeout()
+    old = signal.signal(signal.SIGALRM, _raise)
+    signal.setitimer(signal.ITIMER_REAL, seconds, 1.0)
+    try:
+        yield
+    finally:
+        signal.setitimer(signal.ITIMER_REAL, 0)
+        signal.signal(signal.SIGALRM, old)
+
 # ------------------------------------------------------------------------------------------------ findings
 
 def load_known_findings():
